@@ -351,15 +351,42 @@ func checkLineBookkeeping(c *Ctx, u *Universe) {
 		type variant struct {
 			env map[string]Val
 		}
-		var variants []map[string]int64
+		// the variables preset for a step are found by role: nesting depth = the local the loop increments; opening
+		// quote = the local read from GetCurrentChar() before the loop; comment kind = the local assigned only
+		// commentType… constants; collected text = the local rune slice the loop appends to
+		var depthObj, openObj, kindObj types.Object
+		if cv := counterVars(info, body); len(cv) == 1 {
+			depthObj = cv[0]
+		}
+		textObj := selfAppendedLocal(info, body)
+		for _, v := range localsInOrder(info, fd) {
+			for _, def := range definitionsOf(info, fd, v) {
+				if call, ok := ast.Unparen(def).(*ast.CallExpr); ok && funcID(calleeFunc(info, call)) == "pkg/syntax.Lexer.GetCurrentChar" && openObj == nil && def.Pos() < body.Pos() {
+					openObj = v
+				}
+			}
+		}
+		if ks := constAssignedVars(info, fd, func(c types.Object) bool { return strings.HasPrefix(c.Name(), "commentType") }); len(ks) == 1 {
+			kindObj = ks[0]
+		}
+		type preset map[types.Object]int64
+		var variants []preset
 		if name == "parseString" {
-			variants = []map[string]int64{{"sch": 0x201C, "quoteNum": 1}}
+			if depthObj == nil || openObj == nil {
+				R.undecided("C18.lines", "pkg/syntax/zh."+name, pos, "nesting counter / opening quote variables not identifiable")
+				continue
+			}
+			variants = []preset{{openObj: 0x201C, depthObj: 1}}
 		} else {
+			if depthObj == nil || kindObj == nil {
+				R.undecided("C18.lines", "pkg/syntax/zh."+name, pos, "nesting counter / comment kind variables not identifiable")
+				continue
+			}
 			// multi-line comment kinds only (a single-line comment ends at the break)
 			consts := constsWithPrefix(p, "commentType")
-			for n, v := range consts {
+			for _, n := range sortedKeys(consts) {
 				if n != "commentTypeSingle" {
-					variants = append(variants, map[string]int64{"multiCommentType": v, "quoteCount": 1})
+					variants = append(variants, preset{kindObj: consts[n], depthObj: 1})
 				}
 			}
 		}
@@ -388,16 +415,14 @@ func checkLineBookkeeping(c *Ctx, u *Universe) {
 					return Val{}, false
 				})
 				st := newState()
-				for k, v := range vr {
-					if o := findLocal(info, fd, k); o != nil {
-						st.env[o] = intVal(v)
-					}
+				for o, v := range vr {
+					st.env[o] = intVal(v)
 				}
-				if o := findLocal(info, fd, "literal"); o != nil {
-					st.env[o] = Val{K: vStr, S: ""}
+				if textObj != nil {
+					st.env[textObj] = Val{K: vStr, S: ""}
 				}
 				outs := pe.exec(st, body.List)
-				desc := fmt.Sprintf("%s %v break %q", name, vr, string(brk))
+				desc := fmt.Sprintf("%s variant %d break %q", name, len(vr), string(brk))
 				if pe.failed != "" || len(outs) != 1 {
 					nBad++
 					if first == "" {
